@@ -1,17 +1,26 @@
 # C06 -- cachex stays live: Load and Futures always complete if loaders do.  (partial)
-# Models: coq/models/CacheLive.v (protocol abstraction; theorems coq/props/C06.v) and
-# coq/models/Cache.v (replay of every trial's log). Vehicle: faketime bursts + watchdog.
+# Models: coq/models/CacheLiveSteps.v (small-step model of everything that can block; theorems
+# cache_steps_* of coq/props/C06.v; stepped against the real code by the stream "liveness-steps",
+# vlib/c06s.py), coq/models/CacheLive.v (coarser protocol abstraction; theorems cache_*) and
+# coq/models/Cache.v (replay of every faketime trial's log). Vehicles: cooperative scheduler over
+# the cachex yield points; faketime bursts + watchdog.
 import json
 
 from . import common, pure
 from . import cache_common as cc
+from . import c06s
 
-PROOFS = ["proofs/CacheLiveProofs.v", "models/CacheLive.v", "models/Cache.v"]
+PROOFS = ["proofs/CacheLiveStepsProofs.v", "models/CacheLiveSteps.v", "models/CacheSteps.v",
+          "proofs/CacheLiveProofs.v", "models/CacheLive.v", "models/Cache.v"]
 
 TRUSTED = [
     "faketime runtime mode and harness/cmd/ftcache (timed script runner, log, virtual-time watchdog)",
-    "modelled, not verified: CacheLive.v is an ABSTRACTION of the cache's lock/queue protocol (keys, values, time erased); "
-    "its link to the code is scenario-level (this check), not step-level",
+    "harness/cmd/coop/c06s.go: deterministic scheduler over the cachex yield points (goroutine-state inspection through "
+    "runtime.Stack, reflection access to the shard mutexes, the worker loop of startJobGoroutines played through "
+    "VerifTakeJob / VerifSetValue / VerifSweep)",
+    "modelled, not verified: CacheLiveSteps.v is a hand-written transcription of the blocking-relevant code; its link to the "
+    "code is the per-step trace correspondence of this check, not a mechanized refinement; CacheLive.v is a coarser abstraction "
+    "whose link to the code is scenario-level",
 ]
 
 
@@ -111,20 +120,28 @@ def scenario_model_line(sc, log, order):
 
 def run(chk):
     chk.trusted = common.BASE_TRUSTED + TRUSTED
-    chk.assumptions = ["every loader returns (scripted durations)", "weak fairness of the Go scheduler (an enabled goroutine eventually runs)",
-                       "CacheLive.v abstracts cache_impl.go faithfully w.r.t. blocking (shard mutexes, bounded job channel, ticker channel of capacity 1)"]
+    chk.assumptions = ["every loader returns (scripted durations; in CacheLiveSteps.v the step that ends a loader is always enabled)",
+                       "weak fairness of the Go scheduler (an enabled goroutine eventually runs)",
+                       "CacheLiveSteps.v transcribes cache_impl.go / cache.go / future.go faithfully w.r.t. blocking (shard mutexes, bounded job channel, "
+                       "worker select, ticker channel of capacity 1, wg.Wait): checked per step on every run, not proved"]
     chk.cov["rule"] = ("case = burst of jobChanSize+parallel+k Loads over distinct typed keys (parallel 1/2/4, jobChanSize 1/2, loaders of 1-5 E) placed so that a "
                        "sweep tick is due while the job queue is full, plus Get/Set/Load/wait calls needing the shard locks; 20 trials each under faketime because "
                        "the idle worker's select choice is the runtime's; a virtual-time watchdog far beyond all loader durations detects a hang. Every trial's log "
                        "is replayed by the extracted Cache.v (identity of Futures, jobs, pairs, resolution instants) and checked by the liveness monitor; the Load "
                        "return instants must match a bounded FIFO channel. Small scenarios are explored exhaustively in the extracted CacheLive.v (no deadlock "
-                       "reachable for the current send order; canary: the pre-fix order must reach one). non-trivial = some Load waited for room in the queue")
+                       "reachable for the current send order; canary: the pre-fix order must reach one). non-trivial = some Load waited for room in the queue. "
+                       "Stream liveness-steps (vlib/c06s.py): the real calls, the job goroutines' loop and the sweep executed one shared access at a time under a deterministic "
+                       "scheduler, all interleavings / state-edge cover / random schedules of small configurations, compared per step with the extracted CacheLiveSteps.v; "
+                       "monitor: the run never reaches a state where every logical thread is blocked while a call is pending")
     chk.run_proof_gate(PROOFS)
+    corpus_lines = pure.corpus_cases("C06")
+    # step-level correspondence with CacheLiveSteps.v (skipped, recorded, when the tree has no cachex hooks)
+    c06s.run(chk, [l for l in corpus_lines if l.startswith("c06s ")])
     binary = cc.build_ft(chk)
     if binary:
         try:
             quick = chk.tier == "quick"
-            corpus = [cc.parse_line(l) for l in pure.corpus_cases("C06")]
+            corpus = [cc.parse_line(l) for l in corpus_lines if l.startswith("ftc")]
             streams = [("corpus", corpus)]
             nb = 40 if quick else 400
             streams.append(("bursts", [burst_script(chk.rng, trials=20 if quick else 50) for _ in range(nb)]))
@@ -205,6 +222,10 @@ def return_time_note(sc, log):
 
 
 def search(chk):
+    try:
+        c06s.search(chk)
+    except Exception as ex:  # best effort
+        chk.infra_errors.append("liveness-steps search crashed: %r" % (ex,))
     binary = cc.build_ft(chk)
     if not binary:
         return
@@ -227,6 +248,10 @@ def replay(chk, path):
     cases = [x["case"] for x in rep.get("failing_inputs", []) + rep.get("divergences", []) if isinstance(x.get("case"), str) and x["case"].startswith("ftc")]
     scripts = [cc.parse_line(c) for c in cases]
     cc.check_batch(chk, binary, "replay", scripts, monitor_c06, exact_load_return=False)
+    steps = [x["case"] for x in rep.get("failing_inputs", []) + rep.get("divergences", []) if isinstance(x.get("case"), str) and x["case"].startswith("c06s ")]
+    if steps:
+        c06s.replay_cases(chk, steps)
+        cases = cases + steps
     bad = len(chk.divergences) + len(chk.monitor_failures)
     for d in chk.divergences:
         print("divergence: %s\n  %s" % (d["case"][:400], d["note"]))
